@@ -185,6 +185,9 @@ func runC13(c *Ctx) {
 	c.Floor(rBytes, 2)
 	c.Check(nReject >= 5 && nAccept >= 1, rExtra, fi.Name()+":returns-enumerated", fi.Decl.Pos(), fmt.Sprintf("%d rejecting and %d accepting returns classified", nReject, nAccept))
 	c.Extra["forbidden_bytes"] = len(st.bytes)
+	// every component is examined: the component loop has no early exit
+	LoopsExhaustive(c, "ref-format-loops", fi)
+	c.Floor("ref-format-loops", 1)
 }
 
 func condKey(conds []ast.Expr) string {
